@@ -188,3 +188,68 @@ func VF_C16_OtherRPCs() {
 		vf.Assert(err == nil && len(w.store.Clients) == 1, "C16 a valid registration is stored")
 	}
 }
+
+// VF_C16_ClientErrors: the server refuses a's push - its record of a's
+// acknowledged operations is behind (the push has a gap: missing operations),
+// or storage fails while reading.  The client reports the error, keeps its
+// local state and its pending operations, nothing is stored; when the cause is
+// gone a plain Sync delivers the pending operations.
+func VF_C16_ClientErrors() {
+	w := vfNewWorld()
+	w.seedCollection(vfCol, 1)
+	log := &vfErrLog{}
+	a, b := w.newPeer("a", vfCUIDx), w.newPeer("b", vfCUIDy)
+	a.cnt = a.cli.CreateCounter(vfKey, log.handlers())
+	_, _ = a.cnt.IncreaseBy(1)
+	vf.Assert(a.sync() == nil, "creator syncs")
+	b.cnt = b.cli.SubscribeCounter(vfKey, b.handlers())
+	vf.Assert(b.sync() == nil && b.cnt.Get() == 1, "subscriber syncs")
+	d := w.datatype(orda.VFDUID(a.cnt))
+	saved := d.RWClients[vfCUIDx].CP.Cseq
+	npend := 1 + vf.Choice("pending", 2)
+	for i := 0; i < npend; i++ {
+		_, _ = a.cnt.IncreaseBy(10)
+	}
+	want := int32(1 + 10*npend)
+	cause := vf.Choice("cause", 2)
+	vf.Tag("cause", cause)
+	switch cause {
+	case 0: // the server's record of a is behind: the push has a gap
+		d.RWClients[vfCUIDx].CP.Cseq = saved - 1
+	case 1: // storage fails on the first read of the request
+		w.store.FailAt = w.store.Commands + 1 + vf.Choice("command", 4)
+		w.store.FaultMode = 1
+	}
+	before := w.global()
+	nerr := len(log.codes)
+	var serr error
+	panicked, msg := vf.Try(func() {
+		serr = toError(a.cli.Sync())
+		vf.Quiesce()
+	})
+	vf.Reach("refused")
+	if panicked {
+		vf.Tag("_panic", msg)
+	}
+	vf.Assert(!panicked, "C16 a client that receives an error response does not panic")
+	vf.Assert(len(log.codes) > nerr || serr != nil, "C16 the refusal is reported through the client's error handler or the Sync result")
+	vf.Assert(before == w.global(), "C16 a refused request leaves stored data unchanged")
+	_, _, _, buffered := orda.VFSyncState(a.cnt)
+	vf.Assert(buffered == npend && a.cnt.Get() == want, "C16 a refused push leaves the client's state and pending operations as they were")
+	// the cause disappears; the client is still usable and nothing was lost
+	d.RWClients[vfCUIDx].CP.Cseq = saved
+	w.store.FailAt, w.store.FaultMode = 0, 0
+	vf.Assert(a.sync() == nil, "C16 the client remains usable: the next sync succeeds")
+	_, _, _, buffered = orda.VFSyncState(a.cnt)
+	vf.Assert(buffered == 0, "C16 the pending operations are delivered by the next sync")
+	vf.Assert(b.sync() == nil && b.cnt.Get() == want, "C16 the other replica receives the operations of the once-refused push")
+	sv, _, ok := w.serverValue(vfKey)
+	vf.Assert(ok && sv == want, "C16 the server's copy holds the operations of the once-refused push")
+}
+
+func toError(e interface{ Error() string }) error {
+	if e == nil {
+		return nil
+	}
+	return e
+}
